@@ -472,6 +472,23 @@ func constString(v ssa.Value) (string, bool) {
 	return constant.StringVal(c.Value), true
 }
 
+// constSeparator: a constant string, or a constant byte/rune (strings.IndexByte(u, '#')), as a string.
+func constSeparator(v ssa.Value) (string, bool) {
+	if s, ok := constString(v); ok {
+		return s, true
+	}
+	c, ok := v.(*ssa.Const)
+	if !ok || c.Value == nil || c.Value.Kind() != constant.Int {
+		return "", false
+	}
+	if b, ok := types.Unalias(c.Type()).Underlying().(*types.Basic); ok && (b.Kind() == types.Byte || b.Kind() == types.Int32 || b.Kind() == types.UntypedRune) {
+		if n, ok := constant.Int64Val(c.Value); ok && n > 0 && n < 0x110000 {
+			return string(rune(n)), true
+		}
+	}
+	return "", false
+}
+
 func isNilConst(v ssa.Value) bool {
 	c, ok := v.(*ssa.Const)
 	return ok && c.Value == nil
